@@ -258,7 +258,13 @@ func (e *c14Env) run(t testing.TB, r *vreport.Report, c c14Case) {
 				}
 				b, gerr := coll.Get1xRevBody(ctx, fullID, leaf.rev, false, []string{})
 				if gerr != nil {
-					r.Violate("C14/leaf-unreadable/"+tag, fmt.Sprintf("leaf %s of %s cannot be read with attachments: %v; history %v", leaf.rev, did, gerr, c.Hist[:step+1]), rep)
+					fp := "C14/leaf-unreadable/" + tag
+					if del && did == id && len(dm.leaves) > 1 {
+						// mechanism: the winning branch was tombstoned, which promotes this leaf of another branch to current
+						// revision; the sweep of the tombstoned winner's attachments removed what the promoted leaf lists
+						fp = "C14/promoted-leaf-loses-attachment-when-the-winning-branch-is-tombstoned/" + tag
+					}
+					r.Violate(fp, fmt.Sprintf("leaf %s of %s cannot be read with attachments: %v; history %v", leaf.rev, did, gerr, c.Hist[:step+1]), rep)
 					continue
 				}
 				got := GetBodyAttachments(b)
